@@ -7,7 +7,8 @@ dir=$1; k=$2; shift 2; checks="$@"
 diff=$dir/change_$k.diff
 wt=/tmp/sc-$$-$k
 out=/tmp/sc-$$-$k.log
-git -C /repo worktree add -q $wt HEAD || exit 9
+git -C /repo worktree add -q $wt ${SEED_BASE:-HEAD} || exit 9
+[ -n "$SEED_BASE" ] && echo "base=$SEED_BASE"
 cleanup() { git -C /repo worktree remove --force $wt 2>/dev/null; }
 trap cleanup EXIT
 res() { echo "$1=$2"; }
